@@ -274,10 +274,12 @@ Ltac crush :=
   bound_facts; repeat sym_step;
   repeat (first [reflexivity | solve [exfalso; nth_facts; lia] | (split_case; repeat sym_step)]).
 
-Theorem parse_line_ir_eq (int_of : text -> option Z) (line : text) :
-  parse_line_ir code_parse_line int_of line = result_of_columns (parse_line int_of line).
+(* stated as a call with any sufficient fuel, so that the callers of _parseInventoryLine can use it too *)
+Theorem call_parse_line_eq (int_of : text -> option Z) (line : text) (fuel : nat) :
+  (length line + 3 <= fuel)%nat ->
+  call_fn int_of [] fuel code_parse_line [VStr line] = result_of_columns (parse_line int_of line).
 Proof.
-  unfold parse_line_ir, run_body. cbn.
+  intros Hfuel. unfold call_fn. cbn.
   start_search_loop int_of line.
   - (* position k is past the end *)
     intros k u f Hk Hrej Hnone. rewrite (parse_none_at int_of line k Hk Hrej Hnone).
@@ -293,6 +295,10 @@ Proof.
   - intros j q Hj. lia.
   - assert (Hl := split_on_length SP line). lia.
 Qed.
+
+Theorem parse_line_ir_eq (int_of : text -> option Z) (line : text) :
+  parse_line_ir code_parse_line int_of line = result_of_columns (parse_line int_of line).
+Proof. rewrite <- (call_parse_line_eq int_of line (length line + 3) (le_n _)). reflexivity. Qed.
 
 (* the robustness core of C17 stated on the translated code: whatever the line and whatever int() does, the code of
    _parseInventoryLine returns a value or raises ValueError -- it is never stuck, never out of fuel, never IndexError *)
